@@ -423,6 +423,9 @@ fn getter_cases(rng: &mut Rng, thorough: bool) {
             let k = j / 2;
             run_case(&format!("seg 2 {} {}", hex(&b[..k]), hex(&b[k..])), &ops[..1]);
             run_case(&format!("take {} slice {}", j, hex(&rng.bytes(size + 2))), &ops[..1]);
+            // … and a Take whose limit is larger than what the inner buffer still holds
+            run_case(&format!("take {} slice {}", j + 3, hex(&b)), &ops[..1]);
+            run_case(&format!("take {} chain slice {} bytes {}", size + 4, hex(&b[..k]), hex(&b[k..])), &ops[..1]);
             run_case(&format!("chain bytes {} cursor {} 1", hex(&b[..k]), hex(&[&[0u8][..], &b[k..]].concat())), &ops[..1]);
         }
         // a Cursor positioned at and beyond the end of its data (set_position is not clamped): nothing remains
